@@ -343,7 +343,11 @@ def check_unrestrict(spec):
 
 
 def body_unrestrict(spec):
-    problems = check_unrestrict(spec)
+    try:
+        problems = check_unrestrict(spec)
+    except wf.DegenerateBasis:
+        # numerically linearly dependent basis: orthonormal orbitals cannot be constructed on it
+        return [], False, ["degenerate_basis_skipped"]
     mo = spec["mo"]
     nontrivial = mo["kind"] == "restricted" and (
         mo["aminusb"] or mo["occ"] in ("open_integer", "fractional")
